@@ -302,7 +302,7 @@ fn tag_string() -> impl Strategy<Value = String> {
     ]
 }
 
-pub fn property() -> Property {
+pub fn property(_tier: Tier) -> Property {
     let tv = tag_values();
     let n = tv.len();
     let tv2 = tv.clone();
